@@ -24,8 +24,8 @@ import (
 
 // bounds (wall clock: the Lua VM's deadline is a real context timer that no simulated clock can drive while the VM spins)
 const (
-	callBound  = 8 * time.Second  // "returns within a small bounded time": the script deadline is 1s
-	childBound = 40 * time.Second // parent kills the child after this
+	callBound  = 30 * time.Second // "returns within a small bounded time": the script deadline is 1s; generous, the machine may be heavily loaded
+	childBound = 100 * time.Second // parent kills the child after this
 )
 
 type Outcome struct {
